@@ -85,6 +85,7 @@ class Gen:
             (w('src', 2), lambda: 'srclen %d %d' % (m, r.choice([0, 1, 2, 3, 4, 7, 8, 8]))),
             (w('ctx', 1), lambda: r.choice(['ctxlen', 'stats', 'finalize', 'quit %d' % r.randint(0, 9), 'ctxreg 0', 'ctxdereg', 'settick %d' % r.choice([0, 7000000000])]
                                            + (['dispatch'] if me is None and depth == 0 else []))),   # no re-entrant dispatch from callbacks (outside the documented use)
+            (w('ctx', 1) - 1 + (2 if 'ctx' in F and me is not None else 0), lambda: 'ctxreg %d' % r.randint(0, 1)),   # a second context, also from inside (deny-ctx) callbacks
             (1, lambda: 'ref %d' % m), (1, lambda: 'unref %d' % m),
             (w('errno', 1), lambda: 'errno %d' % r.choice([2, 4, 11, 13, 22, 32])),
             (1, lambda: 'live'),
